@@ -41,4 +41,4 @@ def obligations(ctx: Ctx):
         Ob(f"{P}.F1.effects", "F", "the emitter has no ambient effect", EMIT, framesobs.ob_no_effects(EMIT, ("global_write", "env", "cwd", "clock", "random", "locale", "hash_order", "identity", "fs_read", "fs_write", "subprocess", "await"))),
         Ob(f"{P}.F1.assigns", "F", "the emitter mutates only fresh locals", EMIT, framesobs.ob_params_not_mutated(EMIT, ("octave_mcp.core.emitter:",))),
         Ob(f"{P}.B1", "B", "emit∘parse is accepted by the strict reader and byte-stable on every model document / lenient rendering", ["octave_mcp.core.parser:parse", "octave_mcp.core.parser:parse_with_warnings", "octave_mcp.core.emitter:emit"], ob_b1, timeout=3000),
-    ] + LX.emit_layout_obs(P)
+    ] + LX.emit_layout_obs(P) + LX.parse_scalar_obs(P)
